@@ -176,7 +176,7 @@ impl<'a> PrettyPrinter<'a> {
                 }
                 _ => {
                     if let Some(arg) = child.cast::<Arg>() {
-                        if is_ends_with_hashed_expr(arg.to_untyped().children()) {
+                        if is_ends_with_hashed_expr(arg.to_untyped()) {
                             peek_hashed_arg = true;
                         }
                         FlowItem::spaced(self.convert_arg(ctx, arg))
@@ -227,9 +227,19 @@ impl<'a> PrettyPrinter<'a> {
     }
 }
 
-fn is_ends_with_hashed_expr(mut children: std::slice::Iter<'_, SyntaxNode>) -> bool {
-    children.next_back().is_some_and(|it| it.is::<Expr>())
+/// Whether the node's text ends with a hashed expression (`#expr`), possibly nested in its last child
+/// (`1#2` is a `Math` holding the hash). A semicolon right after it would be taken as its terminator.
+fn is_ends_with_hashed_expr(node: &SyntaxNode) -> bool {
+    let mut children = node.children();
+    let Some(last) = children.next_back() else {
+        return false;
+    };
+    if last.is::<Expr>()
         && children
             .next_back()
             .is_some_and(|it| it.kind() == SyntaxKind::Hash)
+    {
+        return true;
+    }
+    is_ends_with_hashed_expr(last)
 }
